@@ -80,9 +80,13 @@ impl Matrix {
         if self.is_square() {
             for i in 0..self.nrows {
                 for j in i..self.ncols {
-                    if (self.data[i * self.ncols + j] - self.data[j * self.nrows + i]).abs()
-                        > f64::EPSILON
-                    {
+                    // relative tolerance, as in the slice-level is_symmetric: an absolute one calls
+                    // every tiny-valued matrix symmetric
+                    let (a, b) = (
+                        self.data[i * self.ncols + j],
+                        self.data[j * self.nrows + i],
+                    );
+                    if (a - b).abs() > f64::EPSILON * a.abs().max(b.abs()) {
                         return false;
                     }
                 }
